@@ -412,7 +412,20 @@ pub fn c07_check(tier: Tier) -> Outcome {
 
 pub fn c08_check(tier: Tier) -> Outcome {
     let mut out = Outcome::new("C08", "model_checking");
+    // through the real Server (it wires the negotiated interval into worker and socket): a duplicate ACK 0.7 s before a
+    // 6-second interval elapses must not trigger a retransmission — wall clock, runs alongside the simulated part
+    let mut e2 = vec![];
+    for single in [false, true] {
+        let mut s = crate::loopback::SrvCfg::basic();
+        s.single = single;
+        e2.push(json!({"srv": s.to_json(), "family": "interval", "timeout": 6, "write": false, "dup_ack_before_timeout": true, "property": "C08"}));
+    }
+    let ne2 = e2.len();
+    let h = std::thread::spawn(move || run_cells("c09", e2, &crate::pool_opts(Tier::Quick)));
     finish(&mut out, "modea", c08_cells(tier), tier);
+    if let Ok(res) = h.join() {
+        out.absorb(res, ne2);
+    }
     if tier == Tier::Thorough {
         // boundary windows again with overflow checks on (debug-build arithmetic)
         let cells: Vec<Value> = c08_cells(Tier::Quick).into_iter().filter(|c| c["cfg"]["ws"].as_u64().unwrap_or(0) >= 65534).collect();
@@ -420,7 +433,7 @@ pub fn c08_check(tier: Tier) -> Outcome {
         let res = crate::run_cells_ovf("modea", cells, tier);
         out.absorb(res, n);
     }
-    out.rule = modea_rule("window / retransmission-causality monitors W1-W4 and abort-on-duplicate-ACK; windowsize 1,2,3,4,8 with the delay dimension, 65534/65535 with a reduced alphabet");
+    out.rule = modea_rule("window / retransmission-causality monitors W1-W4 and abort-on-duplicate-ACK; windowsize 1,2,3,4,8 with the delay dimension, 65534/65535 with a reduced alphabet; plus, through the real Server in both port modes, a duplicate ACK 0.7 s before a negotiated 6-second interval elapses (wall clock)");
     out.assumptions = vec!["'retransmission' = a burst containing a block already sent; legal only if virtual time since the previous burst >= timeout or the preceding answer was an in-window ACK that left sent blocks outstanding".into()];
     out
 }
